@@ -14,8 +14,8 @@ simulator (`plainStep`, the loop body of `run_quick_machine`, verified in C01) f
 it stands in state `q` on the tape `after`.  The theorems below make that validator trustworthy:
 an `ok` answer IS a run of the L0 machine (BB/Spec.lean).
 
-Property theorems only; helper lemmas live in BB/Lemmas/Validate.lean and
-BB/Lemmas/ValidateRule.lean.  Definitions used by the statements: `Tape.toCfg` (Model/Tape.lean: the
+Property theorems only; helper lemmas live in BB/Lemmas/Validate.lean,
+BB/Lemmas/ValidateRule.lean and (symbolic validation, last section) BB/Lemmas/SymRule1-5.lean.  Definitions used by the statements: `Tape.toCfg` (Model/Tape.lean: the
 L0 configuration a (state, run-length tape) pair denotes), `Tape.Pos` (Lemmas/Refine.lean: every
 block has at least one cell), `Tape.Canon` (Lemmas/Canon.lean: moreover adjacent blocks differ in
 colour and the far-end block of each side is not blank; decidable, `Tape.canonB`), `plainIter`
@@ -29,6 +29,7 @@ steps, `apply_rule_canon` below for the rule applications), and the driver op `c
 -/
 import BB.Lemmas.Validate
 import BB.Lemmas.ValidateRule
+import BB.Lemmas.SymRule5
 
 namespace BB
 
@@ -139,3 +140,69 @@ example : exC03After.Pos ∧ exC03After.Canon :=
    apply_rule_canon exC03Before exC03After exC03Rule 6 (by decide) (by decide) (by decide)⟩
 
 end BB
+
+/-! ### Symbolic validation: rule applications of any size
+
+`checkApp` costs as many plain cycles as the application replaces.  `Sym.validateApp`
+(BB/Model/SymRule.lean) validates the RULE instead: the changed block counts become linear forms
+`c + xᵢ`, one period of the rule is run once by the symbolic version `symStep` of the plain
+simulator cycle (every decision must be determined by colours and constant parts, for all
+`xᵢ ≥ 0`), and the application made `times` times follows by induction over the periods, with the
+exact number of machine steps `Σ_{j<times} f(x + j·δ)` (`totalSteps`).  The cost does not depend on
+`times`.  The theorems say that an accepted application IS a run of the L0 machine. -/
+
+namespace BB.Sym
+
+/-- **sym_step_sound** (the core).  If one symbolic cycle is determined, then for EVERY valuation
+    of the variables the plain simulator, run on the instantiated tape, takes exactly that cycle:
+    same next state, the instantiated next tape, the instantiated number of base steps. -/
+theorem sym_step_sound (p : Prog) (q : Nat) (s : STape) (q' : Nat) (s' : STape) (k : Form)
+    (hpos : s.posB = true) (h : symStep p q s = .next q' s' k) (v : Val) :
+    plainStep p q (s.inst v) = .next q' (s'.inst v) (k.eval v) ∧ s'.posB = true :=
+  sym_step_sound' p q s q' s' k hpos h v
+
+/-- **sym_period_sound.**  A validated period holds for every valuation: from the instantiated
+    tape in state `q` the L0 machine reaches, in exactly `f.eval v ≥ 1` steps, the same state on the
+    instantiated shifted tape; every configuration on the way has a defined instruction, and - when
+    the instantiated start tape is canonical - none is a spin-out configuration and the end tape is
+    canonical again. -/
+theorem sym_period_sound (p : Prog) (q : Nat) (s target : STape) (dl dr : List Int)
+    (budget cycles : Nat) (f : Form) (h : symPeriod p q s dl dr budget = some (cycles, f))
+    (ht : s.shift dl dr = some target) (v : Val) :
+    1 ≤ f.eval v ∧ (s.inst v).Pos ∧ (target.inst v).Pos ∧
+      RunVia p.toF (OnWay p.toF (s.inst v).Canon) ((s.inst v).toCfg q) (f.eval v)
+        ((target.inst v).toCfg q) ∧
+      ((s.inst v).Canon → (target.inst v).Canon) :=
+  sym_period_sound' p q s target dl dr budget cycles f h ht v
+
+/-- **validate_app_sound.**  If the symbolic validator accepts a reported application
+    `(q, before) → (q, after)` made `times` times and answers `n`, the L0 machine started on the
+    cells of `before` in state `q` is, after exactly `n ≥ 1` steps, on the cells of `after` in state
+    `q`; every configuration on the way has a defined instruction; if `before` is canonical none of
+    them is a spin-out configuration and `after` is canonical.  No bound on `times`. -/
+theorem validate_app_sound (p : Prog) (q : Nat) (before after : Tape) (times budget n : Nat)
+    (h : validateApp p q before after times budget = some n) :
+    1 ≤ n ∧ before.Pos ∧ after.Pos ∧
+      RunVia p.toF (OnWay p.toF before.Canon) (before.toCfg q) n (after.toCfg q) ∧
+      (before.Canon → after.Canon) :=
+  validate_app_sound' p q before after times budget n h
+
+/-! Non-vacuity: the application of C03's example (6 times) validated symbolically - the same
+1356 machine steps as `checkApp` counts; and an application of the same rule made 633 times
+(6 096 423 machine steps), validated at the same cost. -/
+
+example : validateApp exC03Prog 0 exC03Before exC03After 6 1000 = some 1356 := by decide +kernel
+example := validate_app_sound exC03Prog 0 exC03Before exC03After 6 1000 1356 (by decide +kernel)
+example : validateApp exC03Prog 0 ⟨3, [⟨3,1900⟩,⟨1,1⟩], [⟨2,22⟩]⟩ ⟨3, [⟨3,1⟩,⟨1,1⟩], [⟨2,3187⟩]⟩
+    633 1000 = some 6096423 := by decide +kernel
+/-- the rule itself: one period `1 3^(4+x) [3] 2^(22+y)` to `1 3^(1+x) [3] 2^(27+y)` takes 12
+    symbolic cycles -/
+example : (symPeriod exC03Prog 0
+    ⟨3, [⟨3, Form.var 4 0⟩, ⟨1, Form.const 1⟩], [⟨2, Form.var 22 1⟩]⟩ [-3, 0] [5] 1000).map (·.1)
+    = some 12 := by decide +kernel
+/-- a wrong `times` (the differences are not divisible) or a wrong `after` is refused -/
+example : validateApp exC03Prog 0 exC03Before exC03After 5 1000 = none := by decide +kernel
+example : validateApp exC03Prog 0 exC03Before ⟨3, [⟨3,1⟩,⟨1,1⟩], [⟨2,58⟩]⟩ 6 1000 = none := by
+  decide +kernel
+
+end BB.Sym
